@@ -11,6 +11,11 @@ pub use may_queue::verif::{
 };
 use std::panic::Location;
 
+// network I/O (C17/C18): system-call results as events
+#[path = "verif_io.rs"]
+mod verif_io;
+pub use verif_io::{sys, SysErr, SysOk};
+
 pub mod atomic {
     use may_queue::verif::{op, op_cas, ord_code};
     use std::panic::Location;
@@ -50,6 +55,11 @@ pub mod atomic {
                 }
                 pub fn into_inner(self) -> $t {
                     self.v.into_inner()
+                }
+                /// an event about the object this atomic belongs to that wraps no memory operation
+                /// (io layer: result of a system call on the socket, io timer armed / disarmed / fired)
+                pub fn mark(&self, what: &'static str, arg: u64, res: u64) {
+                    op(self.site, self.a(), what, arg, 0, 0, || res);
                 }
                 pub fn load(&self, o: Ordering) -> $t {
                     op(self.site, self.a(), "load", 0, 0, ord_code(o), || {
